@@ -168,6 +168,36 @@ pub struct LogEntry {
 
 static LOG_SEQ: std::sync::atomic::AtomicU64 = std::sync::atomic::AtomicU64::new(1);
 
+thread_local! {
+    static CALL_WINDOWS: std::cell::RefCell<Vec<(u8, u64, u64)>> = const { std::cell::RefCell::new(Vec::new()) };
+}
+
+/// Brackets one client call at `node`: on drop, the range of log sequence numbers that
+/// passed while the call was running is recorded (thread-local, per execution).
+pub struct CallWindow {
+    node: u8,
+    start: u64,
+}
+
+pub fn call_window(node: u8) -> CallWindow {
+    CallWindow { node, start: LOG_SEQ.load(std::sync::atomic::Ordering::Relaxed) }
+}
+
+impl Drop for CallWindow {
+    fn drop(&mut self) {
+        let end = LOG_SEQ.load(std::sync::atomic::Ordering::Relaxed);
+        CALL_WINDOWS.with(|w| w.borrow_mut().push((self.node, self.start, end)));
+    }
+}
+
+pub fn clear_call_windows() {
+    CALL_WINDOWS.with(|w| w.borrow_mut().clear());
+}
+
+pub fn call_windows() -> Vec<(u8, u64, u64)> {
+    CALL_WINDOWS.with(|w| w.borrow().clone())
+}
+
 pub struct FaultStore<I: Storage> {
     pub inner: Arc<I>,
     plan: Mutex<VecDeque<Fault>>,
